@@ -45,6 +45,7 @@ var libPure = map[string]bool{
 	"(*regexp.Regexp).String": true, "(*regexp.Regexp).MatchString": true,
 	"(*strings.Replacer).Replace": true,
 	"(*time.Location).String": true,
+	"(encoding/json.Number).Int64": true, "(encoding/json.Number).Float64": true, "(encoding/json.Number).String": true,
 }
 
 // library functions that write through their arguments or call back into the
@@ -85,6 +86,23 @@ func init() {
 			e.assume(fmt.Sprintf("(not (= %s 0))", res.T))
 			e.assumeLibInv(st, res, in.Call.Value.(*ssa.Function).Signature.Results().At(0).Type().(*types.Pointer).Elem())
 			return res
+		},
+		// bufio: NewReader returns a new stream object positioned at its first rune; the
+		// static ReadRune/UnreadRune calls on it follow the rune-stream model below
+		"bufio.NewReader": func(e *Enc, f *frame, st *State, in *ssa.Call, args []Val, rs *Shape) Val {
+			e.rsDecls()
+			r := e.alloc(st)
+			h := e.rsHeap(st)
+			n := &Heap{Name: h.Name, Sort: h.Sort, Prev: h}
+			n.Term = e.define("H_Lib_rscur", h.Sort, fmt.Sprintf("(store %s %s 0)", h.Term, r))
+			st.heaps[h.Name] = n
+			return Val{Sh: rs, T: r}
+		},
+		"(*bufio.Reader).ReadRune": func(e *Enc, f *frame, st *State, in *ssa.Call, args []Val, rs *Shape) Val {
+			return modelReadRune(e, f, st, in, Val{Sub: []Val{{}, args[0]}}, args[1:], rs)
+		},
+		"(*bufio.Reader).UnreadRune": func(e *Enc, f *frame, st *State, in *ssa.Call, args []Val, rs *Shape) Val {
+			return modelUnreadRune(e, f, st, in, Val{Sub: []Val{{}, args[0]}}, args[1:], rs)
 		},
 		"fmt.Sprintf":       modelSprintf,
 		"fmt.Sprint":        modelSprintf,
